@@ -363,6 +363,20 @@ class XPathContext:
 
         selectors = [evaluated(x) for x in selectors]
         iterators = [x(self) for x in selectors]
+        outer = {x: self.variables[x] for x in varnames if x in self.variables}
+
+        def restarted(level: int) -> Iterator[Any]:
+            # when a range expression is evaluated again the variables of its own and of the
+            # following clauses are out of scope: outer variables with these names are visible
+            for name in varnames[level:]:
+                if name in outer:
+                    self.variables[name] = outer[name]
+                else:
+                    self.variables.pop(name, None)
+            for i, name in enumerate(varnames[:level]):
+                self.variables[name] = prod[i]
+            yield from selectors[level](self)
+
         dimension = len(iterators)
         prod = [None] * dimension
         max_index = dimension - 1
@@ -384,7 +398,7 @@ class XPathContext:
             else:
                 if not k:
                     return
-                iterators[k] = selectors[k](self)
+                iterators[k] = restarted(k)
                 k -= 1
 
     ##
